@@ -170,6 +170,59 @@ pub fn record_lru(args: &Args) {
     let mut out = Out::new(&args.str("out", "-"));
     let mut rng = Rng::new(seed ^ 0x1a0);
     out.emit(json!({"ev": "init", "kind": "lru", "seed": seed}));
+    // --big 1: tables of 2^9 .. 2^11 slots filled up to and across their growth; around the growth keys that sit in high slots are
+    // re-inserted with a NEW value, a key that collides with them in the grown table is inserted, and they are read back (a growth that
+    // is spread over several calls must not bring an older value back)
+    if args.num("big", 0) != 0 {
+        for _ in 0..segs {
+            let cap = 9 + rng.below(3);
+            let slots = 1usize << cap;
+            out.emit(json!({"ev": "lreset", "cap": cap}));
+            let mut lru: Lru<u64, u64> = Lru::new(cap);
+            let mut next_val = 1u64;
+            let t0 = (slots * 7) / 10;
+            let mut ins = |lru: &mut Lru<u64, u64>, k: u64, out: &mut Out, next_val: &mut u64| -> bool {
+                let v = *next_val;
+                *next_val += 1;
+                match guarded(|| lru.insert(k, v, k)) {
+                    Ok(()) => {
+                        out.emit(json!({"ev": "lins", "k": k, "v": v, "h": k}));
+                        true
+                    }
+                    Err(m) => {
+                        out.emit(json!({"ev": "lins", "k": k, "v": v, "h": k, "panic": m}));
+                        false
+                    }
+                }
+            };
+            let get = |lru: &Lru<u64, u64>, k: u64, out: &mut Out| match guarded(|| lru.get(k, k)) {
+                Ok(r) => out.emit(json!({"ev": "lget", "k": k, "h": k, "ret": r.map(|x| x as i64).unwrap_or(-1)})),
+                Err(m) => out.emit(json!({"ev": "lget", "k": k, "h": k, "panic": m})),
+            };
+            let mut alive = true;
+            for k in 0..(t0 + 12) {
+                if !alive {
+                    break;
+                }
+                alive = ins(&mut lru, k as u64, &mut out, &mut next_val);
+                if alive && k + 6 >= t0 {
+                    // around the growth: a resident key of a high slot gets a new value, its collider in the doubled table follows, read back
+                    let victim = (k - 1 - rng.below(40)) as u64;
+                    alive = ins(&mut lru, victim, &mut out, &mut next_val);
+                    if alive && rng.coin() {
+                        alive = ins(&mut lru, victim + 2 * slots as u64, &mut out, &mut next_val);
+                    }
+                    get(&lru, victim, &mut out);
+                    get(&lru, rng.below(k + 1) as u64, &mut out);
+                }
+            }
+            for _ in 0..60 {
+                get(&lru, rng.below(t0 + 12) as u64, &mut out);
+            }
+        }
+        out.flush();
+        return;
+    }
     for _ in 0..segs {
         let cap = rng.below(4);
         let nkeys = rng.range(2, 10);
